@@ -67,8 +67,8 @@ def campaign(c):
         one(c, src, 'example:' + os.path.basename(f))
     one(c, b'', 'empty')
     one(c, b'\n\n# nothing\n', 'empty')
-    sizes = [14, 15, 16, 29, 30, 31, 60, 1514, 8191, 8192, 8193, 65535] if c.quick else \
-        [14, 15, 16, 17, 29, 30, 31, 59, 60, 61, 64, 1500, 1514, 4095, 8175, 8176, 8177, 8191, 8192, 8193, 16383, 32768, 65534, 65535, 65536, 70000]
+    sizes = [14, 15, 16, 29, 30, 31, 60, 1514, 8191, 8192, 8193, 65535, 65536, 65549] if c.quick else \
+        [14, 15, 16, 17, 29, 30, 31, 59, 60, 61, 64, 1500, 1514, 4095, 8175, 8176, 8177, 8191, 8192, 8193, 16383, 32768, 65534, 65535, 65536, 65548, 65549, 65550, 70000]
     for n in sizes:
         one(c, size_sweep_program(n), 'size%d' % n)
         c.count('size_sweep')
